@@ -135,7 +135,12 @@ func (ge *GroupEntry) Parse(line string) error {
 	}
 	ge.GID = uint32(gid)
 
-	ge.Members = strings.Split(parts[3], ",")
+	// strings.Split("", ",") is [""]: a group without members must not
+	// come back with one member whose name is empty.
+	ge.Members = nil
+	if parts[3] != "" {
+		ge.Members = strings.Split(parts[3], ",")
+	}
 
 	return nil
 }
